@@ -250,6 +250,26 @@ fn run_route<M: ConvexCellMarker + 'static>(c: &Case, vi: &VoronoiIntegrator<M>,
         let cell = vi.get_cell_at(i).unwrap();
         check_face_decomposition(c, cell, list, &bundles[&i], route, cs)?;
     }
+    // ---- faces through the SYMMETRIC entry point: the same predicates on the faces it reports
+    // (it skips faces already reported by a constructed lower-index neighbour without shift, but
+    // what it does report must be the same decomposition)
+    let srecs = vi.compute_face_integrals_sym::<TriRecorder>();
+    let mut per_cell_sym: BTreeMap<usize, Vec<&TriRecorder>> = BTreeMap::new();
+    for f in &srecs {
+        let r = f.integral();
+        if f.left() != r.cell_idx {
+            return Err(format!("{route}: a symmetric face integral reports left() = {} but was initialised for cell {}", f.left(), r.cell_idx));
+        }
+        per_cell_sym.entry(r.cell_idx).or_default().push(r);
+    }
+    for (&i, list) in &per_cell_sym {
+        if !active[i] {
+            return Err(format!("{route}: symmetric face integrals were computed for the unconstructed cell {i}"));
+        }
+        let cell = vi.get_cell_at(i).unwrap();
+        check_face_decomposition(c, cell, list, &bundles[&i], &format!("{route}, symmetric variant"), cs)?;
+    }
+    cs.count("sym_faces_checked", srecs.len() as u64);
     // ---- per-cell data: extra_data[k] = (k, payload) must reach the cell with generator index k
     let data: Vec<Payload> = (0..n).map(|k| (k, 0xC14_0000u64 + (k as u64) * 7919)).collect();
     let with_data = vi.compute_cell_integrals_with_data::<Payload, TetRecorderData>(&data);
@@ -319,7 +339,7 @@ pub fn check(c: &Case, cs: &mut CaseStats) -> Result<(), String> {
 pub fn def() -> PropDef {
     PropDef {
         id: "C14",
-        rule: "first clause: this check's binary links the integral-trait implementations of the separate crate /verif/downstream (public API, no hook feature); the crate is also built on its own before every run and a compile error is the violation. cases: all families x masks (none / all-true / all-false / single / complement / prefix / Bernoulli), dims 1-3, periodic or not, n <= 24, offsets to 2^16; 3D additionally through with_faces(). oracle: (a) for every constructed cell the signed sum (sign by the documented orientation rule, evaluated by the harness) over the recorded tetrahedra of the 10 monomials 1, x_i, x_i x_j about the generator equals the moments of the brute-force reference cell (tolerance: volume tolerance of C01 x R^degree); apex bitwise equal to the generator; (b) every base triangle vertex of a face integral lies in that face's plane, signed triangle areas sum to the reference face area and their first moments give the reference face centroid, no face integral for planes outside the active subspace or for faces the reference does not have; (c) extra_data[k] = (k, payload_k) reaches the cell / the faces of the cell with generator index k through the three *_with_data entry points, results cover exactly the constructed cells in ascending order; (d) the same through with_faces() in 3D; everything is executed against the default (rayon) build and against the sequential build of the library. non-trivial: some cell's decomposition contains a negatively oriented tetrahedron (the correction mechanism is exercised); sub-label: data delivered under a mixed mask; distinct by case hash.",
+        rule: "first clause: this check's binary links the integral-trait implementations of the separate crate /verif/downstream (public API, no hook feature); the crate is also built on its own before every run and a compile error is the violation. cases: all families x masks (none / all-true / all-false / single / complement / prefix / Bernoulli), dims 1-3, periodic or not, n <= 24, offsets to 2^16; 3D additionally through with_faces(). oracle: (a) for every constructed cell the signed sum (sign by the documented orientation rule, evaluated by the harness) over the recorded tetrahedra of the 10 monomials 1, x_i, x_i x_j about the generator equals the moments of the brute-force reference cell (tolerance: volume tolerance of C01 x R^degree); apex bitwise equal to the generator; (b) every base triangle vertex of a face integral lies in that face's plane, signed triangle areas sum to the reference face area and their first moments give the reference face centroid, no face integral for planes outside the active subspace or for faces the reference does not have; the same for the faces reported by the symmetric entry point; (c) extra_data[k] = (k, payload_k) reaches the cell / the faces of the cell with generator index k through the three *_with_data entry points, results cover exactly the constructed cells in ascending order; (d) the same through with_faces() in 3D; everything is executed against the default (rayon) build and against the sequential build of the library. non-trivial: some cell's decomposition contains a negatively oriented tetrahedron (the correction mechanism is exercised); sub-label: data delivered under a mixed mask; distinct by case hash.",
         strategy,
         check,
         cases: |t| t.pick(3000, 100_000),
